@@ -300,6 +300,13 @@ func (c *CCIPMessageFeeUSD18Calculator) MessageFeeUSD18(
 
 	messageFees := make(map[cciptypes.Bytes32]plugintypes.USD18)
 	for _, msg := range messages {
+		if msg.FeeValueJuels.Int == nil {
+			// The message was read without a fee value. It cannot be priced, and multiplying by the nil value
+			// would panic: record a fee of 0, so the message is the only one affected (too costly at worst).
+			c.lggr.Warnw("missing fee value for message, using a fee of 0", "messageID", msg.Header.MessageID)
+			messageFees[msg.Header.MessageID] = plugintypes.NewUSD18(0)
+			continue
+		}
 		feeUSD18 := new(big.Int).Div(
 			new(big.Int).Mul(linkPriceUSD.Int, msg.FeeValueJuels.Int),
 			new(big.Int).Exp(big.NewInt(10), big.NewInt(18), nil),
